@@ -74,7 +74,23 @@ type Scenario struct {
 	Extras    []Extra  `json:"extras"`
 	Recover   bool     `json:"recover"`
 	Keys      []string `json:"keys"` // all keys to audit
-	Others    []OtherTxn `json:"others"` // concurrent transactions for history scenarios (run sequentially between steps)
+	Others    []OtherTxn `json:"others"` // unused
+	Program   []Step   `json:"program"` // multi-transaction step program (C06 / C01); when set, Txn is ignored
+	Txns      map[string]TxnSpec `json:"txns"` // specs of the transactions named in Program (ops unused)
+}
+
+// Step of a program: executed sequentially unless Async (then it runs in a goroutine and is joined by a later "join" step)
+type Step struct {
+	T     string   `json:"t"`  // transaction name (t1, t2, ...) ; client = "c"+digit
+	Op    string   `json:"op"` // begin set del insert get bget scan rscan lock agg_start agg_retry agg_cancel agg_done commit rollback split join clock
+	K     string   `json:"k"`
+	Ks    []string `json:"ks"`
+	V     string   `json:"v"`
+	RV    bool     `json:"rv"`    // lock: return values
+	CE    bool     `json:"ce"`    // lock: check existence
+	LOIE  bool     `json:"loie"`  // lock: only if exists
+	Wait  int64    `json:"wait"`  // lock wait: -1 no wait, 0 default(always), >0 ms
+	Async bool     `json:"async"`
 }
 type OtherTxn struct {
 	Txn TxnSpec `json:"txn"`
@@ -99,6 +115,7 @@ type env struct {
 	trace   *Trace
 	clk     *clock
 	pdsh    *pdShared
+	guard   *rbGuard
 	reqSeq  atomic.Int64
 	stores  map[string]*tikv.KVStore
 	gates   map[string]*gate
@@ -130,6 +147,7 @@ func newEnv(sc *Scenario) (*env, error) {
 		}
 		unistore.BootstrapWithSingleStore(cluster)
 		e.inner, e.pdc, e.cluster = &unistoreClientWrapper{client}, pdClient, cluster
+		e.guard = newGuard()
 	}
 	for _, s := range sc.Splits {
 		e.split(key(s))
@@ -159,7 +177,7 @@ func (e *env) store(id string) *tikv.KVStore {
 		e.pdsh = &pdShared{clk: e.clk, trace: e.trace}
 	}
 	s, err := tikv.NewTestTiKVStore(e.inner, &gatePD{Client: e.pdc, sh: e.pdsh},
-		func(c tikv.Client) tikv.Client { g = newGate(c, id, e.trace, &e.reqSeq); return g }, nil, 0)
+		func(c tikv.Client) tikv.Client { g = newGate(c, id, e.trace, &e.reqSeq); g.guard = e.guard; return g }, nil, 0)
 	if err != nil {
 		panic(err)
 	}
@@ -402,10 +420,13 @@ func (e *env) mvcc(st *tikv.KVStore, k []byte) map[string]interface{} {
 	return map[string]interface{}{"err": "region errors"}
 }
 
-func (e *env) readAll(st *tikv.KVStore, cid string, ts uint64, tmo time.Duration) map[string]interface{} {
+func (e *env) readAll(st *tikv.KVStore, cid string, ts uint64, tmo time.Duration, freshSnapPerKey bool) map[string]interface{} {
 	res := map[string]interface{}{}
 	snap := st.GetSnapshot(ts)
 	for _, kk := range e.sc.Keys {
+		if freshSnapPerKey {
+			snap = st.GetSnapshot(ts) // its own resolved-lock list: every key meets its own lock
+		}
 		ctx, cancel := context.WithTimeout(context.Background(), tmo)
 		v, err := snap.Get(ctx, key(kk))
 		cancel()
@@ -433,11 +454,334 @@ func waitWG(wg *sync.WaitGroup, d time.Duration) bool {
 	}
 }
 
+type progTxn struct {
+	txn    *transaction.KVTxn
+	cid    string
+	spec   TxnSpec
+	done   bool
+	result string
+	savedFU uint64
+	lastFU  uint64
+}
+
+func runProgram(sc *Scenario, e *env, out map[string]interface{}) {
+	ctx := context.Background()
+	txns := map[string]*progTxn{}
+	steps := []map[string]interface{}{}
+	var smu sync.Mutex
+	pending := map[string]chan struct{}{}
+	clientOf := func(t string) string { return "c" + strings.TrimLeft(t, "t") }
+	if len(sc.Preload) > 0 {
+		c9 := e.store("c9")
+		txn, _ := c9.Begin()
+		for _, p := range sc.Preload {
+			_ = txn.Set(key(p.K), []byte(p.V))
+		}
+		if err := txn.Commit(ctx); err != nil {
+			out["fatal"] = "preload: " + err.Error()
+			return
+		}
+		e.gates["c9"].waitQuiet(30*time.Millisecond, 5*time.Second)
+	}
+	record := func(i int, st Step, res map[string]interface{}) {
+		res["i"] = i
+		res["t"] = st.T
+		res["op"] = st.Op
+		smu.Lock()
+		steps = append(steps, res)
+		smu.Unlock()
+		e.trace.add(Event{Kind: "api", Client: clientOf(st.T), F: res})
+	}
+	exec := func(i int, st Step) {
+		res := map[string]interface{}{}
+		pt := txns[st.T]
+		cid := clientOf(st.T)
+		store := e.store(cid)
+		if st.Op != "begin" && st.Op != "split" && st.Op != "clock" && (pt == nil || pt.done) {
+			res["skipped"] = true
+			record(i, st, res)
+			return
+		}
+		var err error
+		switch st.Op {
+		case "begin":
+			spec := sc.Txns[st.T]
+			txn, e2 := e.begin(store, cid, &spec)
+			if e2 != nil {
+				res["err"] = classify(e2)
+				break
+			}
+			txns[st.T] = &progTxn{txn: txn, cid: cid, spec: spec}
+			res["start"] = txn.StartTS()
+		case "set":
+			err = pt.txn.Set(key(st.K), []byte(st.V))
+		case "del":
+			err = pt.txn.Delete(key(st.K))
+		case "insert":
+			err = pt.txn.GetMemBuffer().SetWithFlags(key(st.K), []byte(st.V), kv.SetPresumeKeyNotExists)
+		case "get":
+			v, e2 := pt.txn.Get(ctx, key(st.K))
+			if e2 != nil {
+				if tikverr.IsErrNotFound(e2) {
+					res["v"] = nil
+				} else {
+					err = e2
+				}
+			} else {
+				res["v"] = string(v.Value)
+			}
+			res["k"] = st.K
+		case "bget":
+			ks := [][]byte{}
+			for _, k := range st.Ks {
+				ks = append(ks, key(k))
+			}
+			m, e2 := pt.txn.BatchGet(ctx, ks)
+			if e2 != nil {
+				err = e2
+			} else {
+				vals := map[string]interface{}{}
+				for _, k := range st.Ks {
+					if v, ok := m[k]; ok {
+						vals[k] = string(v.Value)
+					} else {
+						vals[k] = nil
+					}
+				}
+				res["vals"] = vals
+			}
+		case "scan", "rscan":
+			var it interface {
+				Valid() bool
+				Key() []byte
+				Value() []byte
+				Next() error
+				Close()
+			}
+			var e2 error
+			lo, hi := []byte(nil), []byte(nil)
+			if st.K != "" {
+				lo = key(st.K)
+			}
+			if st.V != "" {
+				hi = key(st.V)
+			}
+			if st.Op == "scan" {
+				it, e2 = pt.txn.Iter(lo, hi)
+			} else {
+				it, e2 = pt.txn.IterReverse(hi, lo)
+			}
+			if e2 != nil {
+				err = e2
+				break
+			}
+			pairs := [][]string{}
+			for it.Valid() {
+				pairs = append(pairs, []string{string(it.Key()), string(it.Value())})
+				if e3 := it.Next(); e3 != nil {
+					err = e3
+					break
+				}
+			}
+			it.Close()
+			res["pairs"] = pairs
+		case "lock":
+			fu := uint64(0)
+			if pt.spec.Pessimistic {
+				fu, _ = store.CurrentTimestamp(oracle.GlobalTxnScope)
+				if st.V == "fu_saved" && pt.savedFU >= pt.lastFU && pt.savedFU > 0 {
+					// a for-update ts taken earlier (never below the one used before): a commit in between is a write conflict
+					fu = pt.savedFU
+				}
+				pt.lastFU = fu
+			}
+			w := st.Wait
+			if w == 0 {
+				w = kv.LockAlwaysWait
+			}
+			lctx := kv.NewLockCtx(fu, w, time.Now())
+			ks := [][]byte{}
+			for _, k := range st.Ks {
+				ks = append(ks, key(k))
+			}
+			if st.RV {
+				lctx.InitReturnValues(len(ks))
+			}
+			if st.CE {
+				lctx.InitCheckExistence(len(ks))
+			}
+			lctx.LockOnlyIfExists = st.LOIE
+			// the context is never cancelled: cancelling it after LockKeys returned would cancel the
+			// asynchronous pessimistic rollback of a failed call (a caller-side loss, not a client defect)
+			err = pt.txn.LockKeys(ctx, lctx, ks...)
+			res["for_update"] = fu
+			if err == nil && st.RV {
+				vals := map[string]interface{}{}
+				for _, k := range st.Ks {
+					if rv, ok := lctx.Values[k]; ok && rv.Exists {
+						vals[k] = string(rv.Value)
+					} else {
+						vals[k] = nil
+					}
+				}
+				res["vals"] = vals
+			}
+		case "fu_take":
+			pt.savedFU, _ = store.CurrentTimestamp(oracle.GlobalTxnScope)
+		case "agg_start":
+			func() {
+				defer func() {
+					if p := recover(); p != nil {
+						res["panic"] = fmt.Sprint(p)
+					}
+				}()
+				pt.txn.StartAggressiveLocking()
+			}()
+		case "agg_retry":
+			func() {
+				defer func() {
+					if p := recover(); p != nil {
+						res["panic"] = fmt.Sprint(p)
+					}
+				}()
+				pt.txn.RetryAggressiveLocking(ctx)
+			}()
+		case "agg_cancel":
+			func() {
+				defer func() {
+					if p := recover(); p != nil {
+						res["panic"] = fmt.Sprint(p)
+					}
+				}()
+				pt.txn.CancelAggressiveLocking(ctx)
+			}()
+		case "agg_done":
+			func() {
+				defer func() {
+					if p := recover(); p != nil {
+						res["panic"] = fmt.Sprint(p)
+					}
+				}()
+				pt.txn.DoneAggressiveLocking(ctx)
+			}()
+		case "commit":
+			e.trace.add(Event{Kind: "commit_call", Client: cid, F: map[string]interface{}{"start": pt.txn.StartTS(), "finish": "commit", "causal": pt.spec.Causal}})
+			err = pt.txn.Commit(ctx)
+			pt.done = true
+			pt.result = classify(err)
+			res["commit_ts"] = pt.txn.CommitTS()
+			e.trace.add(Event{Kind: "told", Client: cid, F: map[string]interface{}{"start": pt.txn.StartTS(), "res": pt.result, "finish": "commit", "commit_ts": pt.txn.CommitTS()}})
+		case "rollback":
+			err = pt.txn.Rollback()
+			pt.done = true
+			pt.result = "rolledback"
+			e.trace.add(Event{Kind: "told", Client: cid, F: map[string]interface{}{"start": pt.txn.StartTS(), "res": "ok", "finish": "rollback"}})
+		case "split":
+			e.split(key(st.K))
+		case "clock":
+			e.clk.offsetMs.Add(3600 * 1000)
+		}
+		if err != nil {
+			res["err"] = classify(err)
+			if st.Op == "commit" {
+				res["err"] = pt.result
+			}
+		}
+		record(i, st, res)
+	}
+	for i, st := range sc.Program {
+		if st.Op == "join" {
+			if ch, ok := pending[st.T]; ok {
+				select {
+				case <-ch:
+				case <-time.After(8 * time.Second):
+					e.note("join %s timed out", st.T)
+				}
+				delete(pending, st.T)
+			}
+			continue
+		}
+		if ch, ok := pending[st.T]; ok {
+			// a transaction executes its own steps in order
+			select {
+			case <-ch:
+			case <-time.After(8 * time.Second):
+				e.note("implicit join %s timed out", st.T)
+			}
+			delete(pending, st.T)
+		}
+		if st.Async {
+			ch := make(chan struct{})
+			pending[st.T] = ch
+			i, st := i, st
+			go func() { exec(i, st); close(ch) }()
+			time.Sleep(15 * time.Millisecond) // let it reach its blocking point
+			continue
+		}
+		exec(i, st)
+	}
+	for t, ch := range pending {
+		select {
+		case <-ch:
+		case <-time.After(8 * time.Second):
+			e.note("final join %s timed out", t)
+		}
+	}
+	// unfinished transactions are rolled back (the program generator normally finishes them itself)
+	names := []string{}
+	for t := range txns {
+		names = append(names, t)
+	}
+	sort.Strings(names)
+	tinfo := map[string]interface{}{}
+	for _, t := range names {
+		pt := txns[t]
+		if !pt.done {
+			_ = pt.txn.Rollback()
+			pt.done, pt.result = true, "rolledback(final)"
+		}
+		tinfo[t] = map[string]interface{}{"start": pt.txn.StartTS(), "commit_ts": pt.txn.CommitTS(), "result": pt.result, "pessimistic": pt.spec.Pessimistic, "mode": pt.spec.Mode}
+	}
+	for id, g := range e.gates {
+		if !g.waitQuiet(40*time.Millisecond, 10*time.Second) {
+			e.note("%s background work did not drain", id)
+		}
+	}
+	out["txns"] = tinfo
+	out["steps"] = steps
+	cA := e.store("c8")
+	pre := map[string]interface{}{}
+	for _, kk := range sc.Keys {
+		pre[kk] = e.mvcc(cA, key(kk))
+	}
+	out["audit_pre"] = pre
+	tsEnd, _ := cA.CurrentTimestamp(oracle.GlobalTxnScope)
+	out["ts_end"] = tsEnd
+	out["trace"] = e.trace.snapshot()
+	out["notes"] = e.errs
+	if e.guard != nil {
+		out["guard_rejected"] = e.guard.rejected
+	}
+	for _, s := range e.stores {
+		st := s
+		go st.Close()
+	}
+}
+
 func runScenario(sc *Scenario) map[string]interface{} {
 	out := map[string]interface{}{"id": sc.ID}
 	e, err := newEnv(sc)
 	if err != nil {
 		out["fatal"] = err.Error()
+		return out
+	}
+	if len(sc.Program) > 0 {
+		if sc.BatchSize > 0 {
+			kv.TxnCommitBatchSize.Store(uint64(sc.BatchSize))
+		} else {
+			kv.TxnCommitBatchSize.Store(16 * 1024)
+		}
+		runProgram(sc, e, out)
 		return out
 	}
 	if sc.BatchSize > 0 {
@@ -563,14 +907,25 @@ loop:
 		c3 := e.store("c3")
 		e.trace.add(Event{Kind: "note", Client: "c3", F: map[string]interface{}{"recover": true}})
 		ts1, _ := c3.CurrentTimestamp(oracle.GlobalTxnScope)
-		out["reads_after_1"] = e.readAll(c3, "c3", ts1, 5*time.Second)
+		out["reads_after_1"] = e.readAll(c3, "c3", ts1, 5*time.Second, true)
 		e.gates["c3"].waitQuiet(30*time.Millisecond, 5*time.Second)
-		// resolve whatever is left (locks not met by reads: e.g. lock-only keys are met too since reads hit every key)
 		ts2, _ := c3.CurrentTimestamp(oracle.GlobalTxnScope)
-		out["reads_after_2"] = e.readAll(c3, "c3", ts2, 5*time.Second)
-		out["reads_before"] = e.readAll(c3, "c3", tsBefore, 5*time.Second)
+		out["reads_after_2"] = e.readAll(c3, "c3", ts2, 5*time.Second, false)
+		out["reads_before"] = e.readAll(c3, "c3", tsBefore, 5*time.Second, false)
 		out["ts_after"] = ts2
 		e.gates["c3"].waitQuiet(30*time.Millisecond, 5*time.Second)
+		// lock-only keys and keys masked by a snapshot's resolved list: GC lock resolution by a fourth client
+		c4 := e.store("c4")
+		sp, _ := c4.CurrentTimestamp(oracle.GlobalTxnScope)
+		e.trace.add(Event{Kind: "gc_begin", Client: "c4", F: map[string]interface{}{"safepoint": sp}})
+		gctx, gcancel := context.WithTimeout(context.Background(), 10*time.Second)
+		gerr := tikv.StoreProbe{KVStore: c4}.GCResolveLockPhase(gctx, sp, 1)
+		gcancel()
+		e.trace.add(Event{Kind: "gc_end", Client: "c4", F: map[string]interface{}{"err": fmt.Sprint(gerr)}})
+		if gerr != nil {
+			e.note("gc resolve: %v", gerr)
+		}
+		e.gates["c4"].waitQuiet(30*time.Millisecond, 5*time.Second)
 		post := map[string]interface{}{}
 		for _, kk := range sc.Keys {
 			post[kk] = e.mvcc(c3, key(kk))
@@ -579,6 +934,9 @@ loop:
 	}
 	out["trace"] = e.trace.snapshot()
 	out["notes"] = e.errs
+	if e.guard != nil {
+		out["guard_rejected"] = e.guard.rejected
+	}
 	// close what can be closed
 	for id, s := range e.stores {
 		if id == "c1" && crashed {
